@@ -128,6 +128,46 @@ def class_memo_not_inherited(ctx, rule_id, modules, consequence):
                    'base class and never builds its own (%s)'
                    % (attr, line, '; '.join(bad[:3]), consequence),
                    loc='%s:%d' % (fi.module.relpath, line))
+            # ... and what is filed in it belongs to the CLASS: a value
+            # taken from the instance that happened to build the memo
+            # (`getattr(self, name)` - a method bound to it) is served to
+            # every other instance of the class
+            stored = [nd.value.id for nd in ast.walk(fi.node)
+                      if isinstance(nd, ast.Assign) and
+                      isinstance(nd.value, ast.Name) and any(
+                          isinstance(t, ast.Attribute) and t.attr == attr
+                          for t in nd.targets)]
+            fillers = [fi]
+            for nd in ast.walk(fi.node):
+                if isinstance(nd, ast.Call) and \
+                        isinstance(nd.func, ast.Attribute) and \
+                        isinstance(nd.func.value, ast.Name) and \
+                        nd.func.value.id == 'self' and fi.cls is not None and \
+                        any(isinstance(a, ast.Name) and a.id in stored
+                            for a in nd.args):
+                    h = prog.lookup_method(fi.cls, nd.func.attr)
+                    if h is not None and h not in fillers:
+                        fillers.append(h)
+            held = []
+            for h in fillers:
+                ps = h.params()
+                me = ps[0] if ps else 'self'
+                for nd in ast.walk(h.node):
+                    if isinstance(nd, ast.Assign) and any(
+                            isinstance(t, ast.Subscript)
+                            for t in nd.targets) and any(
+                            isinstance(x, ast.Name) and x.id == me
+                            for x in ast.walk(nd.value)):
+                        held.append('%s:%d %s' % (
+                            h.module.relpath, nd.lineno,
+                            ast.unparse(nd.value)[:50]))
+            ctx.ob(rule_id, fi.qualname,
+                   'class-memo-holds-no-instance:%s' % attr, not held,
+                   'what is filed in the per-class memo %s is taken from the '
+                   'instance that builds it (%s): every other instance of '
+                   'the class is then served the first one\'s bound method '
+                   '/ value (%s)' % (attr, '; '.join(held[:2]), consequence),
+                   loc='%s:%d' % (fi.module.relpath, line))
     _memo_control()
     ctx.extra['class_memos_checked:%s' % rule_id] = n
     return n
